@@ -241,9 +241,9 @@ for _c in pc.CARRIERS:
                           f'carrier {_c.id}; invalid request kind {_k}; slice bounds (a, b) and the index of the following valid insert: all integers',
                           tier='quick' if (_c.id, _k) in _Q else 'thorough', budget=300, per_path=60,
                           out='faults injected at arbitrary internal points (pfst has no rollback; the property does not ask for it)', reset=pc.reset_globals))
-for _cid in ('ifbody3', 'modbody', 'list4c'):
+for _cid in ('ifbody3', 'modbody', 'list4c', 'ifinline', 'elifchain'):
     CELLS.append(Cell(f'P1.{_cid}.pep8space_int', _mk_badopt(_cid), 'P', pc.FN_EDIT + ['fst.fst_options.check_options'],
-                      f'carrier {_cid}; put_slice with pep8space = n for integers -3 <= n <= 5 (the error path formats the value, which would realise it) and bounds (a, b) over all of Z', tier='quick' if _cid == 'ifbody3' else 'thorough',
+                      f'carrier {_cid}; put_slice with pep8space = n for integers -3 <= n <= 5 (the error path formats the value, which would realise it) and bounds (a, b) over all of Z', tier='quick' if _cid in ('ifbody3', 'ifinline', 'elifchain') else 'thorough',
                       budget=300, per_path=60, reset=pc.reset_globals))
 for _cid, (_src, _codes) in ARGS_CARRIERS.items():
     for _code in _codes:
